@@ -372,6 +372,14 @@ fn judge_stationary_scaled<T: Sc>(idx: usize, l: &StLine, kexp: i32, wexp: i32, 
             rep.check("C14", worst <= band_tol, worst, || det(&format!("band radius at p={pv} differs from t((1+p)/2; nu) sqrt(j^T Cov j)"), worst));
             prev = Some(band.iter().map(|v| v.to64()).collect());
         }
+        // probabilities next to zero are inside (0,1): a band of N finite non-negative radii, not above the p = 0.01 band
+        for (pv, band) in st.tiny_bands.iter() {
+            let ok = match band {
+                None => false,
+                Some(b) => b.len() == n && b.iter().all(|v| v.to64().is_finite() && v.to64() >= 0.0) && st.bands.first().map(|(_, b0)| b0.len() == n && (0..n).all(|i| b[i].to64() <= b0[i].to64() * (1.0 + 1e-9) + 1e-300)).unwrap_or(true),
+            };
+            rep.check("C14", ok, 0.0, || det(&format!("band radius at p={pv:e} (inside (0,1)): {}", if band.is_none() { "the call panicked" } else { "length/finite/non-negative/monotone in p" }), 0.0));
+        }
         for (pv, panicked) in st.bad_p_panicked.iter() {
             rep.check("C14", *panicked, 0.0, || det(&format!("probability {pv} outside (0,1) was not rejected"), 0.0));
         }
